@@ -302,7 +302,28 @@ def run_jobs(jobs, nproc=None, job_timeout=600, per_process=1):
     pending = [(b, 0) for b in reversed(batches)]
     running = {}
     nproc = min(nproc, len(batches))
+    # budget for the whole run (a tree on which the property holds finishes far below it; a run that is already violated or
+    # inconclusive is cut short: jobs not yet started are reported as undecided, running ones are killed)
+    t_run0 = time.time()
+    budget = float(os.environ.get("VERIF_RUN_BUDGET", 1800 if job_timeout <= 600 else 4 * 3600))
     while pending or running:
+        if time.time() - t_run0 > budget:
+            for pl, _a in pending:
+                for payload in pl:
+                    yield (payload[2], [rec(payload[2], "unknown", 0.0, detail=f"not started: run budget of {int(budget)}s exhausted")], {}, {})
+            pending = []
+            for r in list(running):
+                pr, pl, got, t_start, attempt = running.pop(r)
+                try:
+                    pr.kill()
+                except Exception:
+                    pass
+                r.close()
+                pr.join(timeout=5)
+                for payload in pl:
+                    if payload[2] not in got:
+                        yield (payload[2], [rec(payload[2], "unknown", 0.0, detail=f"killed: run budget of {int(budget)}s exhausted")], {}, {})
+            break
         while pending and len(running) < nproc:
             pl, attempt = pending.pop()
             r, w = ctx.Pipe(duplex=False)
